@@ -4,7 +4,7 @@ import os
 
 ROOT = os.path.dirname(os.path.dirname(os.path.abspath(__file__)))
 
-TECH = "symbolic execution of the real geckolib code over z3 (proxy objects, bit-vectors/arrays/FP), exhaustive path exploration within stated bounds, counterexample replay on the unmodified code"
+TECH = "symbolic execution of the real geckolib code over z3 (proxy objects, bit-vectors/arrays/FP), exhaustive path exploration within stated bounds, counterexample replay on the unmodified code; a unit the solver cannot decide exits 3 (inconclusive), after a search for a replayable counterexample on random concrete inputs - never a pass"
 
 CHECKS = {
     "C01": dict(
